@@ -581,6 +581,9 @@ impl<Ctx> Bundle<Ctx> for TransferFunction {
         let has_gamma = bitstream.read_bool()?;
         if has_gamma {
             let gamma = bitstream.read_bits(24)?;
+            if gamma == 0 {
+                return Err(Error::ValidationFailed("gamma of transfer function is zero"));
+            }
             Ok(Self::Gamma {
                 g: gamma,
                 inverted: true,
